@@ -20,6 +20,9 @@ inductive GoErr
   | plain
   /-- `NonFatalErrors` holding `n` errors -/
   | nonFatalErrors (n : Nat)
+  /-- a *pointer* to `NonFatalErrors` (what `NonFatalErrors.Append` returns): `IsFatal` only recognises the value type, so
+  this one counts as fatal -/
+  | nonFatalErrorsPtr (n : Nat)
   /-- `*Errors` (x509/error.go) with the `Fatal` flags of its entries -/
   | errorsPtr (fatals : List Bool)
   deriving Repr, DecidableEq, Inhabited
@@ -30,6 +33,7 @@ def isFatal : GoErr → Bool
   | .nonFatalErrors _ => false
   | .errorsPtr fs => fs.any id
   | .plain => true
+  | .nonFatalErrorsPtr _ => true
 
 /-- a Go `(obj, err)` return: is the object non-nil, and the error -/
 structure Ret where
